@@ -442,6 +442,92 @@ def globals_of(st):
     return sorted(out)
 
 
+# ---- filter pipelines over a family whose sparse master holds only composites ----------------------
+# "composites interpolated at their components' locations": the sparse master's composite must be built
+# from the bases AS THE EARLIER FILTERS OF THE SAME RUN LEFT THEM, whatever the sequence of filters.
+PIPE_FILTERS = {
+    "P": ("propagateAnchors", {}),                                   # looks bases up at the sparse location
+    "T": ("transformations", {"OffsetX": 40, "include": ["a"]}),     # moves a base in the full masters
+    "U": ("transformations", {"OffsetY": 16, "include": ["acutecomb"]}),
+    "N": ("sortContours", {"include": ["space"]}),                   # changes nothing, reports nothing
+    "F": ("flattenComponents", {}),                                  # interpolatable, nothing to flatten
+}
+
+
+def pipeline_family():
+    def master(right, top):
+        return {"glyphs": {
+            ".notdef": {"width": 500}, "space": {"width": 250, "unicodes": [0x20]},
+            "a": {"width": 600, "unicodes": [0x61], "contours": [B.box(100, 0, right, top)],
+                  "anchors": [("top", (100 + right) // 2, top + 20)]},
+            "acutecomb": {"width": 0, "unicodes": [0x301], "contours": [B.box(-50, 550, 50, 700)],
+                          "anchors": [("_top", 0, 520)]},
+            "aacute": {"width": 600, "unicodes": [0xE1],
+                       "components": [("a", (1, 0, 0, 1, 0, 0)),
+                                      ("acutecomb", (1, 0, 0, 1, (100 + right) // 2, top - 500))]},
+            "nested": {"width": 620, "components": [("aacute", (1, 0, 0, 1, 20, 0))]}},
+            "order": [".notdef", "space", "a", "acutecomb", "aacute", "nested"]}
+    light, bold = master(400, 500), master(500, 520)
+    light["layers"] = {"mid": {"glyphs": {
+        "aacute": {"width": 600, "components": [("a", (1, 0, 0, 1, 0, 0)), ("acutecomb", (1, 0, 0, 1, 280, 16))]},
+        "nested": {"width": 620, "components": [("aacute", (1, 0, 0, 1, 24, 0))]}}}}
+    return B.build_designspace(
+        [{"name": "Weight", "tag": "wght", "min": 0, "default": 0, "max": 1000}],
+        [{"spec": light, "share": "l", "location": {"Weight": 0}, "name": "light"},
+         {"spec": light, "share": "l", "layerName": "mid", "location": {"Weight": 500}, "name": "mid"},
+         {"spec": bold, "location": {"Weight": 1000}, "name": "bold"}])
+
+
+def _contours(tt, name):
+    from fontTools.pens.recordingPen import DecomposingRecordingPen
+    gs = tt.getGlyphSet()
+    pen = DecomposingRecordingPen(gs)
+    gs[name].draw(pen)
+    out, cur = [], []
+    for op, args in pen.value:
+        if op in ("closePath", "endPath"):
+            if cur:
+                out.append(cur)
+            cur = []
+        else:
+            cur += [tuple(p) for p in args]
+    return out
+
+
+def _canon_cycle(pts):
+    return min(tuple(pts[i:] + pts[:i]) for i in range(len(pts))) if pts else ()
+
+
+def run_pipeline(setup):
+    import ufo2ft
+    from ufo2ft.filters import getFilterClass
+    seq = setup["seq"]
+    filters = [getFilterClass(PIPE_FILTERS[k][0])(pre=True, **PIPE_FILTERS[k][1]) for k in seq]
+    feat = {"part": "pipeline", "seq": "".join(seq)}
+    ctr = {"pipeline_states": 1, "pipeline_sparse_composites_compared": 0}
+    r = ufo2ft.compileInterpolatableOTFsFromDS(pipeline_family(), filters=filters, useProductionNames=False)
+    fonts = {s.name: s.font for s in r.sources}
+    viols = []
+
+    def mid(name):
+        a, b = _contours(fonts["light"], name), _contours(fonts["bold"], name)
+        return [[((p[0] + q[0]) / 2, (p[1] + q[1]) / 2) for p, q in zip(c1, c2)] for c1, c2 in zip(a, b)]
+
+    def shifted(cs, dx, dy):
+        return [[(x + dx, y + dy) for x, y in c] for c in cs]
+    want_aacute = mid("a") + shifted(mid("acutecomb"), 280, 16)
+    for name, want in (("aacute", want_aacute), ("nested", shifted(want_aacute, 24, 0))):
+        got = _contours(fonts["mid"], name) if name in fonts["mid"].getGlyphOrder() else None
+        ctr["pipeline_sparse_composites_compared"] += 1
+        if got is None or sorted(map(_canon_cycle, got)) != sorted(map(_canon_cycle, want)):
+            viols.append(violation("sparse-composite-not-built-from-current-bases", dict(feat, glyph=name),
+                                   expected=want, observed=got))
+    moved = any(k in ("T", "U") for k in seq)
+    return Result(viols, ctr, digest([seq, [sorted(map(_canon_cycle, _contours(fonts["mid"], n)))
+                                            for n in ("aacute", "nested") if n in fonts["mid"].getGlyphOrder()]]),
+                  substates=2, nontrivial=2 if moved else 0)
+
+
 class C09(Property):
     id = "C09"
     rule = ("state = (entry point, number of masters, flattenComponents, UFO library, history of structure ops over a "
@@ -465,9 +551,9 @@ class C09(Property):
     def bounds(self, tier):
         if tier == "quick":
             return {"depth": 3, "ops_depth": 2, "masters": [2, 3], "flatten_masters": [3], "defcon_depth": -1,
-                    "entries": ["ttfs", "ttfs_ds", "otfs_ds"]}
+                    "entries": ["ttfs", "ttfs_ds", "otfs_ds"], "pipeline_len": 3}
         return {"depth": 4, "ops_depth": 3, "masters": [2, 3, 4], "flatten_masters": [2, 3, 4], "defcon_depth": 1,
-                "entries": ["ttfs", "ttfs_ds", "otfs_ds"]}
+                "entries": ["ttfs", "ttfs_ds", "otfs_ds"], "pipeline_len": 4}
 
     def initial(self, b):
         out = []
@@ -477,10 +563,16 @@ class C09(Property):
                     out.append([{"entry": e, "n": n, "module": "ufoLib2", "flatten": fl}])
                     if b["defcon_depth"] >= 0:
                         out.append([{"entry": e, "n": n, "module": "defcon", "flatten": fl}])
+        import itertools
+        for n in range(1, b["pipeline_len"] + 1):
+            for seq in itertools.product(sorted(PIPE_FILTERS), repeat=n):
+                out.append([{"part": "pipeline", "seq": list(seq)}])
         return out
 
     def ops(self, h, b):
         setup, done = h[0], h[1:]
+        if setup.get("part") == "pipeline":
+            return []
         if len(done) >= b["ops_depth"]:
             return []
         if setup.get("module") == "defcon" and len(done) >= b["defcon_depth"]:
@@ -505,6 +597,8 @@ class C09(Property):
         return out
 
     def canon(self, h, b):
+        if h[0].get("part") == "pipeline":
+            return digest(h)
         st = interpret(h)
         return digest([st["setup"], sorted(st["glyphs"].items()), globals_of(st), st["filt"]])
 
@@ -513,6 +607,8 @@ class C09(Property):
 
     # ------------------------------------------------------------------------------------
     def run(self, h, b):
+        if h[0].get("part") == "pipeline":
+            return run_pipeline(h[0])
         st = interpret(h)
         setup = st["setup"]
         flavour = "otf" if setup["entry"] == "otfs_ds" else "ttf"
